@@ -159,6 +159,13 @@ def _pop_flag_semantics(model: Model, rr: RuleResult):
             return cur
         if isinstance(e, ast.UnaryOp) and isinstance(e.op, ast.Not):
             return ("bool", not truthy(ev(e.operand, env, world), world))
+        if isinstance(e, ast.Call) and norm(e.func) == "isinstance" and len(e.args) == 2:
+            v_ = ev(e.args[0], env, world)
+            if v_ in ("C", "F"):
+                return ("bool", world[v_] != "none" and world.get("isinstance", True))  # a set value may be of the tested type (the other outcome is explored separately)
+            return ("bool", False)
+        if isinstance(e, ast.Call) and isinstance(e.func, ast.Attribute) and e.func.attr in ("strip", "lstrip", "rstrip") and not e.args:
+            return ev(e.func.value, env, world)  # '' stays falsy; a value that is only blanks is the one case where truthiness changes, and it is falsy afterwards
         if isinstance(e, ast.IfExp):
             return ev(e.body if truthy(ev(e.test, env, world), world) else e.orelse, env, world)
         raise Unknown(norm(e))
@@ -669,6 +676,20 @@ def r10i(model: Model, rr: RuleResult):
         rr.bad_shape(fi, pats[0][0], f"from_filename matches {pats[0][1]!r}, not the documented pattern", construct="from_filename: pattern")
     else:
         rr.bad_shape(fi, fi.node, "from_filename: pattern not found", construct="from_filename: pattern")
+    # any other pattern of the module that also accepts a name made of hex digits competes with the documented reading of that name
+    import re as _re
+    samples = ["ae", "a9", "EF", "1f600", "emoji_u1f600", "1f1e6-1f1ea", "0023_20e3", "ab"]
+    for node, ptxt in pats:
+        if ptxt == REF:
+            continue
+        try:
+            rx = _re.compile(ptxt)
+        except _re.error:
+            continue
+        hit = [x for x in samples if rx.fullmatch(x) or (rx.match(x) and rx.match(x).end() == len(x))]
+        if hit:
+            rr.bad(fi, node, f"codepoints.py also reads file names with the pattern {ptxt!r}, which accepts {hit} - names that the documented pattern decodes as hex codepoints "
+                   f"(ae.svg is U+00AE): such a source is mapped to other codepoints than its name says", construct=f"codepoints: competing pattern {ptxt}")
     strips = [c for f2 in mod.functions.values() for c in calls_in(f2) if callee_tail(c) in ("lstrip", "rstrip", "strip") and c.args
               and isinstance(c.args[0], ast.Constant) and isinstance(c.args[0].value, str) and len(set(c.args[0].value)) > 1]
     if strips:
